@@ -443,6 +443,26 @@ def run(prog, run):
             continue
         run.instance(r3)
         got = modes(n['args'][1])
+        argn = mp.nodes[mp.skip(n['args'][1])]
+        if got == {'?'} and argn['k'] == 'var' and argn.get('vk') == 'local' and mp.single_def(argn['decl']) is None:
+            # a mode variable that is assigned on the way (SceMode mode = SceAll; if (e2eeExt) mode = ...;): the values it can hold at the call in the case under test
+            at_call = set()
+
+            def mode_transfer(f, nid, st, decl=argn['decl'], call=i):
+                m = f.nodes[nid]
+                if m['k'] == 'decl':
+                    for d_ in m['decls']:
+                        if d_['var'] == decl and d_.get('init') is not None:
+                            return frozenset(modes(d_['init']))
+                if m['k'] == 'assign' and m.get('op') == '=':
+                    l_ = f.nodes[f.skip(m['l'])]
+                    if l_['k'] == 'var' and l_.get('decl') == decl:
+                        return frozenset(modes(m['r']))
+                if nid == call:
+                    at_call.update(st)
+                return None
+            cfgx.explore(mp, frozenset({'?'}), mode_transfer, lambda f, c, st: enc_ev.ev(c, None))
+            got = at_call or {'?'}
         if got == {'QXmpp::ScePublic'}:
             run.ok(r3, mp.loc(i), 'encrypted inbound message parsed with ScePublic')
         else:
